@@ -157,6 +157,7 @@ def ob_queries(ctx):
         else:
             msg = W.mk.variant(QM, vname, crate=HUB)
         ok_paths = 0
+        raw_scenario(W, 'query', msg, user, querier=hub_querier_template(W))
         for st, res in W.query(W.st, msg):
             ctx.ob.paths += 1
             n += 1
@@ -164,11 +165,12 @@ def ob_queries(ctx):
             for c in st.pc:
                 names |= vars_of(c)
             if 'paused_flag' in names:
-                ctx.violation('query %s branches on the pause flag' % vname, 'query:%s:reads_pause' % vname, {})
+                # non-interference: no path of a query may depend on the flag; a feasible one is replayed with both values
+                ctx.infeasible(st, 'query %s branches on the pause flag' % vname, 'query:%s:reads_pause' % vname, W.mv)
             if is_ok(res):
                 ok_paths += 1
                 if vname != 'Parameters' and 'paused_flag' in str(res):
-                    ctx.violation('query %s result depends on the pause flag' % vname, 'query:%s:result' % vname, {})
+                    ctx.infeasible(st, 'query %s result depends on the pause flag' % vname, 'query:%s:result' % vname, W.mv)
                 ctx.witness('query %s succeeds while paused' % vname, st, [p], W.mv)
         ctx.need_witness('query %s has an Ok path' % vname, ok_paths > 0)
         ctx.expect_witness('query %s works while paused' % vname, 'query %s succeeds while paused' % vname)
@@ -196,6 +198,36 @@ BLOCKED = ['UpdateConfig', 'SetOwner', 'AcceptOwnership', 'Bond', 'BondForStSei'
            'CheckSlashing', 'Receive', 'ClaimAirdrop', 'SwapHook', 'RedelegateProxy']
 OBLIGATIONS = [('enumeration', ob_enumeration)] + [('blocked_%s' % v, blocked(v)) for v in BLOCKED] + [('unpaused_%s' % v, unpaused(v)) for v in BLOCKED] + \
     [('update_params_while_paused', ob_update_params_paused), ('migrate_wait_list', ob_migrate), ('queries', ob_queries)]
+
+
+def replay_query_pair(v, run_scenario):
+    """a query is run on the real contract twice, from the same storage with the pause flag set and cleared: the two
+    answers must be identical (and the one of the Parameters query identical up to the flag itself)"""
+    import base64, json as js, copy
+    from smir import tojson
+    tojson.set_string_names({int(k_): s_ for k_, s_ in v.get('strings', {}).items()})
+    scn = tojson.instantiate(v['scenario_t'], v['model'])
+    outs = []
+    for flag in (True, False):
+        s2 = copy.deepcopy(scn)
+        for kv in s2['storage']:
+            if base64.b64decode(kv[0]) == b'\x00\x0bparameteres':
+                pj = js.loads(base64.b64decode(kv[1]))
+                pj['paused'] = flag
+                kv[1] = base64.b64encode(js.dumps(pj).encode()).decode()
+        o = run_scenario(s2)
+        if 'error' in o:
+            return {'status': 'unavailable', 'detail': o['error']}
+        outs.append(o)
+    r1, r2 = outs[0].get('result'), outs[1].get('result')
+    if 'parameters' in scn['msg'] and isinstance(r1, dict) and isinstance(r2, dict) and 'ok' in r1 and 'ok' in r2:
+        r1, r2 = dict(r1['ok'], paused=None), dict(r2['ok'], paused=None)
+    bad = [] if r1 == r2 else ['the query answers differently while paused: %s / not paused: %s' % (str(r1)[:200], str(r2)[:200])]
+    return {'status': 'reproduced' if bad else 'mismatch', 'scenario': scn, 'output': {'paused': outs[0], 'unpaused': outs[1]}, 'oracle': bad,
+            'detail': '' if bad else 'real code answers the same with the flag set and cleared'}
+
+
+REPLAY = {'queries': replay_query_pair}
 
 
 def ORACLE(v, scn, out):
